@@ -270,8 +270,8 @@ def run(ctx):
     if rets and isinstance(rets[0].value, ast.Name):
         var = rets[0].value.id
         assigns = [x for x in walk_own(pf.node) if isinstance(x, ast.Assign) and any(isinstance(t, ast.Name) and t.id == var for t in x.targets)]
-        srcs = sorted(norm(a.value) for a in assigns)
-        r5.check(srcs == ["self._to_pretty_xml()", "self._to_ugly_xml()"], "print_xform_to_file:sources",
+        srcs = sorted((norm(a.value.func) if isinstance(a.value, ast.Call) else norm(a.value)) for a in assigns)
+        r5.check(srcs == ["self._to_pretty_xml", "self._to_ugly_xml"], "print_xform_to_file:sources",
                  "the returned text comes only from the two serialisers", pf.loc(), why_fail=f"sources={srcs}")
         writes = [c for c in walk_own(pf.node) if isinstance(c, ast.Call) and call_name(c) == "write"]
         r5.check(len(writes) == 1 and norm(writes[0].args[0]) == var, "print_xform_to_file:written", "the text written for the validator is the returned text", pf.loc())
